@@ -94,6 +94,9 @@ class Runner:
         try:
             kd, alg = op["key"], op["alg"]
             kf, grc, tok, bad = self.make_tokens(kd, alg, d, op["good"], op["bad"])
+            bk = op.get("badkind")
+            if bk:      # a failing line that begins with the good token
+                bad = {"space": tok + " junk", "tab": tok + "\tjunk", "cr": tok + "\rjunk", "two": tok + " " + bad, "lead": " " + tok}[bk]
             g, b = op["good"], op["bad"]
             if op["order"] == "gb":
                 toks = [tok] * g + [bad] * b
@@ -164,6 +167,21 @@ class Runner:
             ev.update(e="ToolRoundTrip", gen_exit=grc, ver_exit=vrc, tokdots=tok.count("."), toklen=len(tok),
                       kty=kd["kty"], base=kd["base"])
             return ev
+        finally:
+            shutil.rmtree(d, ignore_errors=True)
+
+    def tool_pin(self, op):
+        """jwt-verify -a PIN with a key file whose key carries an alg attribute: the pair is one setkey refuses
+        unless both agree (the tool is the library's setkey table on the command line)."""
+        d = tempfile.mkdtemp(dir=self.work)
+        try:
+            kd, pin = op["key"], op["pin"]
+            kf = self.keyfile(kd, d)
+            grc, out, err = self.run([os.path.join(self.tools, "jwt-generate"), "-q", "-k", kf, "-c", "s:sub=pin"])
+            tok = out.decode().strip().splitlines()[-1] if out.strip() else ""
+            opt = ["-a", pin] if op.get("spell") == "short" else ["--algorithm=" + pin]
+            vrc, vout, verr = self.run([os.path.join(self.tools, "jwt-verify"), "-q", "-k", kf] + opt + [tok])
+            return dict(e="ToolPin", attr=kd["alg"], pin=pin, match=int(pin == kd["alg"]), gen_exit=grc, ver_exit=vrc, toklen=len(tok))
         finally:
             shutil.rmtree(d, ignore_errors=True)
 
@@ -256,6 +274,8 @@ class Runner:
                 ev = self.tool_roundtrip(op)
             elif k == "ToolKeyConv":
                 ev = self.tool_keyconv(op)
+            elif k == "ToolPin":
+                ev = self.tool_pin(op)
             elif k == "ToolKeyConvMulti":
                 ev = self.tool_keyconv_multi(op)
             else:
